@@ -165,6 +165,12 @@ impl Searcher {
         state_history.increment(game_state_hash);
 
         for depth in 0..max_depth {
+            // Small trees never reach the node count at which workers poll the token,
+            // so also check between iterations (after the first, so we always report a move)
+            if depth > 0 && token.is_cancelled() {
+                break;
+            }
+
             // Don't bother doing multiple threads if we're only searching a few moves
             // as the OS overhead will likely outweigh the benefits of parallelism
             let thread_count = max_thread_count.unwrap_or_else(|| {
